@@ -122,6 +122,7 @@ pub fn check(args: &[String]) -> i32 {
     let deadline_ms: u64 = arg(args, "--deadline-ms").and_then(|s| s.parse().ok()).unwrap_or(120_000);
     let evidence_path =
         arg(args, "--evidence").unwrap_or_else(|| format!("{}/evidence/{prop}.json", verif_dir()));
+    let stmt_points_built = arg(args, "--stmt-points").map(|s| s == "1").unwrap_or(false);
     let extra: Option<Value> = arg(args, "--extra-json")
         .and_then(|p| std::fs::read_to_string(p).ok())
         .and_then(|s| serde_json::from_str(&s).ok());
@@ -357,6 +358,7 @@ pub fn check(args: &[String]) -> i32 {
         ],
     });
     coverage["operations_per_kind"] = to_json(&op_kinds);
+    coverage["statement_level_scheduling_points_built_in"] = json!(stmt_points_built);
     // Which convenience functions exist in the source tree right now, and
     // were all of them exercised?
     let (in_source, missing) = wrapper_census(&op_kinds);
